@@ -137,6 +137,7 @@ class Translator:
         self.virtual_dispatch = {}
         self._tu_index = {}
         self.generated_helpers = []
+        self.generated_types = []
         self.labels = {}
         self._complete_cache = {}
         self.switch_slice = {}   # (cname, switch ordinal) -> (slice index, number of slices)
@@ -404,6 +405,7 @@ class Translator:
         if n in ('std::nullopt_t',): return 'nullopt'
         if n in ('std::pair', 'pair'): return 'pair'
         if n in ('std::atomic', 'atomic'): return 'atomic'
+        if n in ('std::function', 'function'): return 'stdfn'
         if n in ('std::chrono::duration', 'std::chrono::time_point', 'duration', 'time_point') or n in CHRONO_ALIASES: return 'chrono'
         if n in self.enums: return 'enum'
         if n in self.records: return 'record'
@@ -455,13 +457,22 @@ class Translator:
             return self.ctype_t(t.to) + ' *'
         if t.kind == 'ptr':
             if t.to.kind == 'func':
-                raise Unsupported('function pointer type %r' % t)
+                ft = t.to
+                sig = '%s (*FNPTR)(%s)' % (self.ctype_t(ft.to), ', '.join(self.ctype_t(p) for p in ft.params) or 'void')
+                if not hasattr(self, '_fnptr_types'): self._fnptr_types = {}
+                if sig not in self._fnptr_types:
+                    nm = 'fnptr_%d' % len(self._fnptr_types)
+                    self._fnptr_types[sig] = nm
+                    self.generated_types.append('typedef %s;' % sig.replace('FNPTR', nm))
+                return self._fnptr_types[sig]
             return ('const ' if t.to.const and self.category(t.to) in ('scalar',) else '') + self.ctype_t(t.to) + ' *'
         if t.kind == 'array':
             raise Unsupported('array type in this position: %r' % t)
         if t.kind == 'func':
             raise Unsupported('function type %r' % t)
         cat = self.category(t)
+        if t.kind != 'named':
+            return self.ctype_t(t)      # an alias was canonicalised to a pointer / reference type
         n = t.name
         if cat == 'scalar': return BUILTIN_C[n]
         if cat == 'str': return 'str'
@@ -491,6 +502,8 @@ class Translator:
         if cat == 'atomic':
             self.dropped.add('std::atomic<T> -> T (sequential semantics)')
             return self.ctype_t(t.args[0])
+        if cat == 'stdfn':
+            return 'struct stdfn'
         if cat == 'chrono':
             return 'long'       # tick count; the unit is tracked by the translator from the type (chrono_den)
         if cat == 'enum':
@@ -542,9 +555,8 @@ class Translator:
     def record_fields(self, q):
         node = self.records[q]
         fields = []
-        for b in node.get('bases', []):
-            bt = self.tparse(b['type'])
-            fields.append(('__base', b['type'], None))
+        for i, b in enumerate(node.get('bases', [])):
+            fields.append(('__base' if i == 0 else '__base%d' % i, b['type'], None))
         for c in node.get('inner', []):
             if c.get('kind') == 'FieldDecl':
                 fields.append((c['name'], c['type'], c))
@@ -582,7 +594,7 @@ class Translator:
         cat = self.category(t)
         if cat == 'record':
             self.emit_record(t.name, out, done, stack)
-        elif cat in ('opt', 'stdarray', 'pair'):
+        elif cat in ('opt', 'stdarray', 'pair', 'umap'):
             for a in t.args:
                 if a.kind != 'lit': self._emit_value_deps(a, out, done, stack)
         elif cat == 'unknown':
@@ -665,6 +677,8 @@ class Translator:
             self.use_record(cq)
             const = 'const ' if re.search(r"\)\s*const", node['type']['qualType']) else ''
             ps.append('struct %s *self' % self.record_cname(cq))
+        if node.get('_lambda_env'):
+            ps.append('void *__env')
         for p in self.fn_params(node):
             pname = p.get('name') or ('__unnamed%d' % len(ps))
             ps.append(self.decl_text(p['type'], self.local_name(p, pname)))
